@@ -8,6 +8,7 @@ From EasyML Require Import Base.Sx Model.Shape Model.U64 Model.Fallible Gen.Arit
      Proofs.ShapeP Proofs.C16P Proofs.GenArithP.
 From EasyML Require Model.Views Model.MatrixViews Model.ShapeIter.
 Import ListNotations.
+From EasyML Require Import Proofs.GenTac.
 Open Scope N_scope.
 
 Definition to_mv (r : index_range) : MatrixViews.index_range := MatrixViews.mkIR (r_start r) (r_length r).
